@@ -1,11 +1,14 @@
 //! vh-graph: graph-level engines (planner, executor, plan cache, buffer pool, ...).
 mod plan;
+mod pool;
 mod synth;
 
 fn main() {
     let cmd = std::env::args().nth(1).unwrap_or_default();
     match cmd.as_str() {
         "plan" => plan::main_plan(),
+        "pool" => pool::main_pool(),
+        "pool-stress" => pool::main_pool_stress(),
         _ => {
             eprintln!("usage: vh-graph <plan|...> [options]");
             std::process::exit(2);
